@@ -153,9 +153,17 @@ class Chunk:
             raise ValueError("Can't calculate width of string %r" % self._s)
         return width
 
-    @cached_property
+    @property
     def color_str(self) -> str:
         "Return an escape-coded string to write to the terminal."
+        # memoised, but read-only like s and atts: chunks are shared between FmtStrs
+        try:
+            return self._color_str
+        except AttributeError:
+            self._color_str: str = self._compute_color_str()
+            return self._color_str
+
+    def _compute_color_str(self) -> str:
         s = self._s
         for k, v in sorted(self._atts.items()):
             # (self.atts sorted for the sake of always acting the same.)
